@@ -1,4 +1,5 @@
 """C15 — coroutine SharedMutex: writers exclude all, readers share, nobody is forgotten (DESIGN.md §3 C15)."""
+from vlib import apiprobe
 from vlib import common as C
 from vlib import conc
 from vlib import memsearch
@@ -24,6 +25,7 @@ def run(res, tier):
         'every state reached by an implementation trace is additionally checked against an executable mirror of the proved invariant (Driver/CoSharedMutexCheck.lean)',
         'the model allows stale pre-check loads; the FIBER backend never produces them (model behaviours ⊇ implementation behaviours)',
     ]
+    apiprobe.stage(res, 'C15', tier)  # every public form of the area still instantiates (vlib/apiprobe.py, harness/api_probe_*.cpp)
     conc.concurrent_check(
         res, 'C15', tier, 'c15.cpp', 'cosharedmutex', RULES,
         quick_args=['--mode', 'dfs', '--pb', '2', '--wb', '1', '--max-exec', '8000'],
@@ -38,5 +40,8 @@ def run(res, tier):
 
 
 def replay(path):
+    r = apiprobe.replay(path)
+    if r is not None:
+        return r
     r = memsearch.replay(path)
     return conc.replay('C15', path) if r is None else r
